@@ -201,6 +201,43 @@ Definition view_repo (st : state) (ca : str) : repo_st := s_repo (ca_view st ca)
 Definition view_parent (st : state) (ca p : str) : option parent_st := aget p (s_parents (ca_view st ca)).
 Definition view_child (st : state) (ca c : str) : option child_st := aget c (s_children (ca_view st ca)).
 
+(** ** The issues views.
+    - [get_ca_issues] (server/ca/manager.rs:656-674): the repository issue is the failure of the last
+      repository exchange ([RepoStatus::opt_failure]), the parent issues are the parents whose last
+      exchange failed ([ParentStatus::opt_failure]), one entry per failing parent.
+    - [CertAuthIssues::is_empty] (api/ca.rs:2034-2036): no repository issue *and* no parent issue.
+    - the view over all CAs (daemon/http/dispatch/bulk.rs:47-67, [cas_issues], GET /api/v1/bulk/cas/issues):
+      for every CA handle, the issues of that CA, kept only [if !issues.is_empty()].
+    - the text reports ([Display] for [CertAuthIssues] and [AllCertAuthIssues], api/ca.rs:1971-1996,
+      2039-2060) say "no issues found" when [is_empty()], resp. when the map is empty. *)
+Definition failure_of (o : option xres) : option N := match o with Some (XFail e) => Some e | _ => None end.
+
+Record issues := mkI { i_repo : option N; i_parents : list (str * N) }.
+
+Definition parent_issues (ps : list (str * parent_st)) : list (str * N) :=
+  flat_map (fun pe => match failure_of (p_last (snd pe)) with Some e => [(fst pe, e)] | None => [] end) ps.
+
+Definition issues_of (s : ca_st) : issues := mkI (failure_of (r_last (s_repo s))) (parent_issues (s_parents s)).
+
+Definition is_nil {A} (l : list A) : bool := match l with [] => true | _ => false end.
+
+Definition issues_empty (i : issues) : bool := negb (is_some (i_repo i)) && is_nil (i_parents i).
+(** the variant with [||] (a CA with only one kind of issue counts as having none): refuted in StatusProofs.v *)
+Definition issues_empty_or (i : issues) : bool := negb (is_some (i_repo i)) || is_nil (i_parents i).
+
+Definition bulk_issues_with (emp : issues -> bool) (l : list (str * ca_st)) : list (str * issues) :=
+  flat_map (fun x => let i := issues_of (snd x) in if emp i then [] else [(fst x, i)]) l.
+Definition bulk_issues : list (str * ca_st) -> list (str * issues) := bulk_issues_with issues_empty.
+
+(** "no issues found" in the text report of one CA / of all CAs *)
+Definition says_no_issues (i : issues) : bool := issues_empty i.
+Definition bulk_says_no_issues (b : list (str * issues)) : bool := is_nil b.
+
+(** the views of a state of the status store, for the CAs that exist *)
+Definition statuses (st : state) (cas : list str) : list (str * ca_st) := map (fun ca => (ca, ca_view st ca)) cas.
+Definition issues_view (st : state) (ca : str) : issues := issues_of (ca_view st ca).
+Definition bulk_view (st : state) (cas : list str) : list (str * issues) := bulk_issues (statuses st cas).
+
 (** ** Generic updaters (status.rs:447-526): insert a default CA status / entry
     when missing, apply, write the one changed value to the store. *)
 Definition update_repo (st : state) (ca : str) (f : repo_st -> repo_st) : state :=
@@ -615,3 +652,17 @@ Definition touches_child (pc ch : str) (o : op) : bool :=
   | _ => false
   end.
 
+(** ** Vocabulary of the statements about the issues views *)
+Definition repo_failed (s : ca_st) : Prop := exists e, r_last (s_repo s) = Some (XFail e).
+Definition parent_failed (s : ca_st) : Prop := exists p x e, In (p, x) (s_parents s) /\ p_last x = Some (XFail e).
+Definition has_failure (s : ca_st) : Prop := repo_failed s \/ parent_failed s.
+
+(** the statement about the all-CAs view, for any emptiness test *)
+Definition bulk_lists_exactly_failing_with (emp : issues -> bool) : Prop :=
+  forall l ca, In ca (map fst (bulk_issues_with emp l)) <-> exists s, In (ca, s) l /\ has_failure s.
+
+Definition f19i_ca : str := q "b".
+(** the repository exchange failed last, the parent is fine *)
+Definition f19i_repo_only : ca_st := mkCa (mkR (Some (XFail 7)) true []) [(q "a", mkP (Some XOk) true 3 [(0, 3)])] [].
+(** the parent exchange failed last, the repository is fine *)
+Definition f19i_parent_only : ca_st := mkCa (mkR (Some XOk) true []) [(q "a", mkP (Some (XFail 8)) true 3 [(0, 3)])] [].
